@@ -1,11 +1,17 @@
 //! zv — bounded exhaustive checks of the 20 properties of KillingSpark/zstd-rs (see /verif/DESIGN.md).
+mod c01;
+mod c03;
 mod c04;
 mod c12;
 mod c13;
 mod c14;
 mod ev;
+mod fe;
+mod gen;
 mod meter;
+mod pool;
 mod refz;
+mod seeds;
 mod selftest;
 mod xplore;
 
@@ -32,6 +38,7 @@ fn main() {
         _ => ev::Tier::Quick,
     };
     let mut replay = None;
+    let mut wa: Option<pool::WorkerArgs> = None;
     let mut i = 2;
     while i < args.len() {
         match args[i].as_str() {
@@ -44,6 +51,25 @@ fn main() {
                 let s = std::fs::read_to_string(&args[i]).expect("replay file");
                 replay = Some(serde_json::from_str::<serde_json::Value>(&s).expect("replay json"));
             }
+            "--worker" => {
+                i += 1;
+                let (a, b) = args[i].split_once('/').expect("shard/nshards");
+                let w = wa.get_or_insert_with(Default::default);
+                w.shard = a.parse().unwrap();
+                w.nshards = b.parse().unwrap();
+            }
+            "--progress" => {
+                i += 1;
+                wa.get_or_insert_with(Default::default).progress = args[i].clone();
+            }
+            "--resume-after" => {
+                i += 1;
+                wa.get_or_insert_with(Default::default).resume_after = Some(args[i].parse().unwrap());
+            }
+            "--only" => {
+                i += 1;
+                wa.get_or_insert_with(Default::default).only = Some(args[i].parse().unwrap());
+            }
             x => {
                 eprintln!("unknown argument {x}");
                 std::process::exit(2);
@@ -52,6 +78,8 @@ fn main() {
         i += 1;
     }
     let code = match id.as_str() {
+        "C01" => c01::main(tier, replay),
+        "C03" => c03::main(tier, replay, wa),
         "C04" => c04::main(tier, replay),
         "C12" => c12::main(tier, replay),
         "C13" => c13::main(tier, replay),
